@@ -327,6 +327,10 @@ Proof.
       rewrite ?cnt_cons, ?cnt_nil; try lia; try (split; [lia|intros _; lia]).
 Qed.
 
+Lemma split_cnt {A} (f : A -> N) n l r :
+  (cnt r (map f (firstn n l)) + cnt r (map f (skipn n l)) = cnt r (map f l))%nat.
+Proof. rewrite <- cnt_app, <- map_app, firstn_skipn. reflexivity. Qed.
+
 Lemma established_Inv s tr p ok sid :
   Inv s tr -> Inv (fst (h_established s p ok sid)) (tr ++ snd (h_established s p ok sid)).
 Proof.
@@ -339,20 +343,24 @@ Proof.
   - cbn [fst snd]. eapply (Inv_step false); [exact I| |intros po H; exact (inv_po _ _ I po H)].
     constructor; [intros r|intros r| ]; unf; simp_sets; cbn [andb]; rewrite ?terms_nil; try specialize (P r); cbn [map] in P;
       rewrite ?cnt_nil in P; try lia; try (split; [lia|discriminate]).
-  - destruct ok; cbn [fst snd].
+  - pose proof (fun r => split_cnt rid_d ok (d0 :: mine) r) as Sp.
+    change (fun d : N * req => OFail (q_rid (snd d)) E_SUBSTREAM) with (fun d : N * req => OFail (rid_d d) E_SUBSTREAM).
+    destruct (firstn ok (d0 :: mine)) as [|x okl] eqn:F; cbn [fst snd].
+    + eapply (Inv_step false); [exact I| |intros po H; exact (inv_po _ _ I po H)].
+      constructor; [intros r|intros r| ]; unf; simp_sets; cbn [andb];
+        rewrite ?(terms_map_fail rid_d); try specialize (P r); try specialize (Sp r); try change (map rid_d []) with (@nil N) in Sp; rewrite ?cnt_nil in Sp;
+        try lia; try (split; [lia|discriminate]).
     + eapply (Inv_step false); [exact I| |].
-      * constructor; [intros r|intros r| ]; unf; simp_sets; cbn [andb]; rewrite ?terms_nil, ?map_app, ?cnt_app, ?number_pouts_rids;
-          rewrite ?map_map; cbn [snd]; try specialize (P r); fold rid_d in *;
-          change (map (fun x : N * req => q_rid (snd x)) (d0 :: mine)) with (map rid_d (d0 :: mine)); try lia; try (split; [lia|discriminate]).
+      * constructor; [intros r|intros r| ]; unf; simp_sets; cbn [andb];
+          rewrite ?(terms_map_fail rid_d), ?map_app, ?cnt_app, ?number_pouts_rids, ?map_map; cbn [snd];
+          try specialize (P r); try specialize (Sp r);
+          change (map (fun x0 : N * req => q_rid (snd x0)) (x :: okl)) with (map rid_d (x :: okl));
+          try lia; try (split; [lia|discriminate]).
       * simp_sets. intros po H. apply in_app_or in H. apply in_or_app. destruct H as [H|H].
         -- left. exact (inv_po _ _ I po H).
         -- right. apply number_pouts_in in H. destruct H as [<- H].
            apply in_map_iff in H. destruct H as [d [E Hd]]. apply in_map_iff. exists d.
            split; [|exact Hd]. unfold rid_d in E. rewrite E. reflexivity.
-    + eapply (Inv_step false); [exact I| |intros po H; exact (inv_po _ _ I po H)].
-      constructor; [intros r|intros r| ]; unf; simp_sets; cbn [andb];
-        change (fun d : N * req => OFail (q_rid (snd d)) E_SUBSTREAM) with (fun d : N * req => OFail (rid_d d) E_SUBSTREAM);
-        rewrite ?(terms_map_fail rid_d); try specialize (P r); try lia; try (split; [lia|discriminate]).
 Qed.
 
 Lemma closed_Inv s tr p :
@@ -650,7 +658,7 @@ Proof.
     destruct (h_send _ _ _ _ _ _ _ _) as [s1 o]. exact H.
   - pose proof (cancel_Inv s tr rid I) as H. destruct (h_cancel s rid) as [s1 o]. exact H.
   - destruct (conn_of p en); cbn [fst snd]; [rewrite app_nil_r; exact I|].
-    pose proof (established_Inv s tr p (negb broken) (next_sid en) I) as H.
+    match goal with |- context [h_established s p ?n ?sd] => pose proof (established_Inv s tr p n sd I) as H end.
     destruct (h_established _ _ _ _) as [s1 o]. exact H.
   - destruct (conn_of p en); cbn [fst snd]; [|rewrite app_nil_r; exact I].
     pose proof (closed_Inv s tr p I) as H. destruct (h_closed s p) as [s1 o]. exact H.
@@ -892,20 +900,23 @@ Proof.
   assert (P : forall r, (cnt r (map rid_d (filter (fun d : N * req => N.eqb (fst d) p) (dials s))) +
                          cnt r (map rid_d (filter (fun d : N * req => negb (N.eqb (fst d) p)) (dials s))) = cd r s)%nat)
     by (intros r; apply (cnt_part rid_d (fun d : N * req => fst d =? p))).
-  destruct (filter (fun d : N * req => fst d =? p) (dials s)) as [|d0 mine] eqn:M; [|destruct ok]; cbn [fst snd];
-    (constructor; [| |intros g H; left; exact H]); unfold owed, answered in *; unf; simp_sets.
-  - intros r H. left. specialize (P r). cbn [map] in P. rewrite cnt_nil in P. lia.
-  - intros r H. destruct H.
-  - intros r H. left. specialize (P r). rewrite map_app, cnt_app, map_map. cbn [snd].
-    change (map (fun x : N * req => q_rid (snd x)) (d0 :: mine)) with (map rid_d (d0 :: mine)). lia.
-  - intros r H. destruct H.
-  - intros r H. specialize (P r).
+  destruct (filter (fun d : N * req => fst d =? p) (dials s)) as [|d0 mine] eqn:M.
+  - cbn [fst snd]. (constructor; [| |intros g H; left; exact H]); unfold owed, answered in *; unf; simp_sets.
+    + intros r H. left. specialize (P r). cbn [map] in P. rewrite cnt_nil in P. lia.
+    + intros r H. destruct H.
+  - pose proof (fun r => split_cnt rid_d ok (d0 :: mine) r) as Sp.
     change (fun d : N * req => OFail (q_rid (snd d)) E_SUBSTREAM) with (fun d : N * req => OFail (rid_d d) E_SUBSTREAM).
-    rewrite (terms_map_fail rid_d).
-    destruct (Nat.eq_dec (cnt r (map rid_d (d0 :: mine))) 0); [left; lia|right; left; lia].
-  - intros r H. exfalso. revert H.
-    change (fun d : N * req => OFail (q_rid (snd d)) E_SUBSTREAM) with (fun d : N * req => OFail (rid_d d) E_SUBSTREAM).
-    apply nosent_map_fail.
+    destruct (firstn ok (d0 :: mine)) as [|x okl] eqn:F; cbn [fst snd];
+      (constructor; [| |intros g H; left; exact H]); unfold owed, answered in *; unf; simp_sets.
+    + intros r H. specialize (P r). specialize (Sp r). change (map rid_d []) with (@nil N) in Sp. rewrite cnt_nil in Sp.
+      rewrite (terms_map_fail rid_d).
+      destruct (Nat.eq_dec (cnt r (map rid_d (skipn ok (d0 :: mine)))) 0); [left; lia|right; left; lia].
+    + intros r H. exfalso. exact (nosent_map_fail rid_d _ _ r H).
+    + intros r H. specialize (P r). specialize (Sp r). rewrite (terms_map_fail rid_d).
+      rewrite map_app, cnt_app, map_map. cbn [snd].
+      change (map (fun x0 : N * req => q_rid (snd x0)) (x :: okl)) with (map rid_d (x :: okl)).
+      destruct (Nat.eq_dec (cnt r (map rid_d (skipn ok (d0 :: mine)))) 0); [left; lia|right; left; lia].
+    + intros r H. exfalso. exact (nosent_map_fail rid_d _ _ r H).
 Qed.
 
 Lemma closed_Keeps cs s p : Keeps cs s (fst (h_closed s p)) (snd (h_closed s p)).
@@ -1086,7 +1097,7 @@ Proof.
     destruct (h_send _ _ _ _ _ _ _ _) as [s1 o]. exact H.
   - pose proof (cancel_Keeps cs s rid) as H. destruct (h_cancel s rid) as [s1 o]. exact H.
   - destruct (conn_of p en); cbn [fst snd]; [apply Keeps_refl|].
-    pose proof (established_Keeps cs s p (negb broken) (next_sid en)) as H.
+    match goal with |- context [h_established s p ?n ?sd] => pose proof (established_Keeps cs s p n sd) as H end.
     destruct (h_established _ _ _ _) as [s1 o]. exact H.
   - destruct (conn_of p en); cbn [fst snd]; [|apply Keeps_refl].
     pose proof (closed_Keeps cs s p) as H. destruct (h_closed s p) as [s1 o]. exact H.
@@ -1338,7 +1349,7 @@ Proof.
     destruct (h_send _ _ _ _ _ _ _ _) as [s1 o]. exact (load_same_io _ _ _ H L).
   - pose proof (cancel_io s rid) as H. destruct (h_cancel s rid) as [s1 o]. exact (load_same_io _ _ _ H L).
   - destruct (conn_of p en); cbn [fst]; [exact L|].
-    pose proof (established_io s p (negb broken) (next_sid en)) as H.
+    match goal with |- context [h_established s p ?n ?sd] => pose proof (established_io s p n sd) as H end.
     destruct (h_established _ _ _ _) as [s1 o]. exact (load_same_io _ _ _ H L).
   - destruct (conn_of p en); cbn [fst]; [|exact L].
     pose proof (closed_io s p) as H. destruct (h_closed s p) as [s1 o]. exact (load_same_io _ _ _ H L).
@@ -1558,21 +1569,22 @@ Proof.
   assert (Hsame : forall l, Inv3 (set_dials s l)).
   { intros l. constructor; simp_sets; [|exact P].
     intros x H. eapply covered_mono; [| |exact (C x H)]; simp_sets; auto using self_fut. }
-  destruct (filter (fun d : N * req => fst d =? p) (dials s)) as [|d0 mine]; [|destruct ok]; cbn [fst].
+  destruct (filter (fun d : N * req => fst d =? p) (dials s)) as [|d0 mine];
+    [|destruct (firstn ok (d0 :: mine)) as [|y okl]]; cbn [fst].
   - constructor; simp_sets.
     + intros x H. eapply covered_mono; [| |exact (C x H)]; simp_sets; auto using self_fut.
     + intros x H. apply in_or_app. left. exact (P x H).
+  - apply Hsame.
   - constructor; simp_sets.
     + intros x H. apply in_app_or in H. destruct H as [H|H].
       * eapply covered_mono; [| |exact (C x H)]; simp_sets; auto using self_fut.
         intros po Hpo. apply in_or_app. left. exact Hpo.
       * apply in_map_iff in H. destruct H as [d [<- Hd]].
-        destruct (number_pouts_cover p sid (d0 :: mine) d Hd) as [po [A [B1 B2]]].
+        destruct (number_pouts_cover p sid (y :: okl) d Hd) as [po [A [B1 B2]]].
         left. exists po. simp_sets. split; [apply in_or_app; right; exact A|].
         rewrite B1, B2. reflexivity.
     + intros x H. apply in_or_app. apply in_app_or in H. destruct H as [H|H]; [left; exact (P x H)|].
       apply in_map_iff in H. destruct H as [d [<- Hd]]. right. left. reflexivity.
-  - apply Hsame.
 Qed.
 
 Lemma closed_Inv3 s p : Inv3 s -> Inv3 (fst (h_closed s p)).
@@ -1723,7 +1735,7 @@ Proof.
     destruct (h_send _ _ _ _ _ _ _ _) as [s1 o]. exact H.
   - pose proof (cancel_Inv3 s tr rid I I3) as H. destruct (h_cancel s rid) as [s1 o]. exact H.
   - destruct (conn_of p en); cbn [fst]; [exact I3|].
-    pose proof (established_Inv3 s p (negb broken) (next_sid en) I3) as H.
+    match goal with |- context [h_established s p ?n ?sd] => pose proof (established_Inv3 s p n sd I3) as H end.
     destruct (h_established _ _ _ _) as [s1 o]. exact H.
   - destruct (conn_of p en); cbn [fst]; [|exact I3].
     pose proof (closed_Inv3 s p I3) as H. destruct (h_closed s p) as [s1 o]. exact H.
@@ -1860,8 +1872,8 @@ Proof. unfold h_send. repeat match goal with |- context [if ?x then _ else _] =>
 Lemma established_plain s p ok sid : plainl (snd (h_established s p ok sid)).
 Proof.
   unfold h_established. destruct (memN p (peers s)); [reflexivity|].
-  destruct (filter _ (dials s)); [reflexivity|]. destruct ok; [reflexivity|]. cbn [snd].
-  apply (plainl_map_fail (fun d : N * req => q_rid (snd d))).
+  destruct (filter _ (dials s)) as [|d0 mine]; [reflexivity|].
+  destruct (firstn ok (d0 :: mine)); cbn [snd]; apply (plainl_map_fail (fun d : N * req => q_rid (snd d))).
 Qed.
 
 Lemma closed_plain s p : plainl (snd (h_closed s p)).
@@ -2199,7 +2211,7 @@ Proof.
   - pose proof (cancel_Q s rid) as H. destruct (h_cancel s rid) as [s1 o]. cbn [fst snd] in *.
     apply Q_facts; [exact H|lia].
   - destruct (conn_of p en); cbn [fst snd]; [apply Q_facts; [apply Q_refl|lia]|].
-    pose proof (established_Q s p (negb broken) (next_sid en)) as H.
+    match goal with |- context [h_established s p ?n ?sd] => pose proof (established_Q s p n sd) as H end.
     destruct (h_established _ _ _ _) as [s1 o]. cbn [fst snd] in *. apply Q_facts; [exact H|unfold nch; cbn [chans]; lia].
   - destruct (conn_of p en); cbn [fst snd]; [|apply Q_facts; [apply Q_refl|lia]].
     pose proof (closed_Q s p) as H. destruct (h_closed s p) as [s1 o]. cbn [fst snd] in *.
@@ -2358,7 +2370,7 @@ Proof.
     destruct (h_send _ _ _ _ _ _ _ _) as [s1 o]. exact H.
   - left. pose proof (cancel_plain s rid) as H. destruct (h_cancel s rid) as [s1 o]. exact H.
   - left. destruct (conn_of p en); cbn [fst snd]; [reflexivity|].
-    pose proof (established_plain s p (negb broken) (next_sid en)) as H.
+    match goal with |- context [h_established s p ?n ?sd] => pose proof (established_plain s p n sd) as H end.
     destruct (h_established _ _ _ _) as [s1 o]. exact H.
   - left. destruct (conn_of p en); cbn [fst snd]; [|reflexivity].
     pose proof (closed_plain s p) as H. destruct (h_closed s p) as [s1 o]. exact H.
@@ -2675,9 +2687,12 @@ Proof.
   assert (P : forall r, (cnt r (map rid_d (filter (fun d : N * req => N.eqb (fst d) p) (dials s))) +
                          cnt r (map rid_d (filter (fun d : N * req => negb (N.eqb (fst d) p)) (dials s))) = cd r s)%nat)
     by (intros r; apply (cnt_part rid_d (fun d : N * req => fst d =? p))).
-  destruct (filter (fun d : N * req => fst d =? p) (dials s)) as [|d0 mine]; [|destruct ok]; cbn [fst];
-    (split; [simp_sets; lia|]); intros r _; specialize (P r); unf; simp_sets;
-    rewrite ?map_app, ?cnt_app, ?number_pouts_rids; cbn [map] in *; rewrite ?cnt_nil in *; lia.
+  destruct (filter (fun d : N * req => fst d =? p) (dials s)) as [|d0 mine].
+  - cbn [fst]. split; [simp_sets; lia|]. intros r _. specialize (P r). unf. simp_sets.
+    cbn [map] in P. rewrite cnt_nil in P. lia.
+  - pose proof (fun r => split_cnt rid_d ok (d0 :: mine) r) as Sp.
+    destruct (firstn ok (d0 :: mine)) as [|y okl]; cbn [fst]; (split; [simp_sets; lia|]); intros r _;
+      specialize (P r); specialize (Sp r); unf; simp_sets; rewrite ?map_app, ?cnt_app, ?number_pouts_rids; lia.
 Qed.
 
 Lemma closed_DP s p : DP s (fst (h_closed s p)).
@@ -2728,7 +2743,7 @@ Proof.
     destruct (h_send _ _ _ _ _ _ _ _) as [s1 o]. exact H.
   - pose proof (cancel_Keep3 s rid) as H. destruct (h_cancel s rid) as [s1 o]. exact (Keep3_DP _ _ H).
   - destruct (conn_of p en); cbn [fst]; [apply Keep3_DP, Keep3_refl|].
-    pose proof (established_DP s p (negb broken) (next_sid en)) as H. destruct (h_established _ _ _ _) as [s1 o]. exact H.
+    match goal with |- context [h_established s p ?n ?sd] => pose proof (established_DP s p n sd) as H end. destruct (h_established _ _ _ _) as [s1 o]. exact H.
   - destruct (conn_of p en); cbn [fst]; [|apply Keep3_DP, Keep3_refl].
     pose proof (closed_DP s p) as H. destruct (h_closed s p) as [s1 o]. exact H.
   - pose proof (dialfail_DP s p) as H. destruct (h_dialfail s p) as [s1 o]. exact H.
